@@ -13,6 +13,10 @@ def q(tier, quick, thorough):
 
 PLAN = {}
 
+
+def miri_jobs_late(names, seeds_each, shards_each):
+    return miri_jobs(names, seeds_each, shards_each)
+
 PLAN["C02"] = dict(
     level="exploration",
     engines=["seq (native, debug assertions on)", "seq (AddressSanitizer)"],
@@ -33,11 +37,14 @@ PLAN["C03"] = dict(
     assumptions=[
         "ASan only sees a use-after-free while the freed block is still in quarantine; Miri is exact but its workloads are small",
     ],
-    require={"bulk_cases": 100},
+    require={"bulk_cases": 100, "references_held_and_reread": 1000, "instances_destroyed_while_round_was_running": 1000},
+    miri_classes=["ub"],
     jobs=lambda t: [
         J("bulk", "native", ["c03", "--part", "bulk"], shards=8, budget_s=q(t, 20, 120)),
         J("bulk-asan", "asan", ["c03", "--part", "bulk"], shards=8, budget_s=q(t, 30, 180)),
-    ],
+        J("held", "native", ["c03", "--part", "held", "--rounds", q(t, 150, 4000)], shards=8, budget_s=q(t, 30, 500), parallel=8),
+        J("held-asan", "asan", ["c03", "--part", "held", "--rounds", q(t, 60, 2000)], shards=8, budget_s=q(t, 40, 500), parallel=8),
+    ] + miri_jobs_late(["list-mix4", "tree-samebin-mix4", "split-trees"], q(t, 4, 96), q(t, 1, 12)),
 )
 
 PLAN["C01"] = dict(
@@ -59,9 +66,10 @@ PLAN["C04"] = dict(
     engines=["drop ledger over directed paths and free-run rounds (native)"],
     assumptions=["ids beyond the ledger capacity of 2^23 per round are counted as untracked (counter instances_untracked_overflow, 0 in practice)"],
     require={"instances_created": 1000, "drops_before_teardown": 100, "path_treeify": 1, "path_list_split": 1},
+    miri_classes=["leak", "ub"],
     jobs=lambda t: [
         J("ledger", "native", ["c04", "--rounds", q(t, 200, 5000)], shards=q(t, 8, 12), budget_s=q(t, 30, 600), parallel=q(t, 8, 12)),
-    ],
+    ] + miri_jobs_late(["list-mix4", "tree-samebin-mix4", "tree-grow-from-0"], q(t, 4, 96), q(t, 1, 12)),
 )
 
 PLAN["C05"] = dict(
